@@ -259,6 +259,10 @@ def do_replay(prop: str, path: str) -> int:
                 print(f"{k}: {case[k]!r}")
         versessions.replay(case)
         return 0
+    if "stall" in case:
+        # C03: a request for the next message / a send while the far end of the stream is slow (virtual-time loop)
+        from .props import stall
+        return stall.replay(case)
     if "byte_history" in case:
         from .props import bytepipe
         print("outcome recorded:", case.get("outcome"), "at step", case.get("step"))
